@@ -1,4 +1,5 @@
 import Chewing.Model.Basic
+import Chewing.Model.Syllable
 /-!
 Model of `src/dictionary/uhash.rs` — the readers of the legacy user-phrase store `uhash.dat`
 (C12, C19).  File contents are `List Nat` (bytes); a Rust panic is `Outcome.panic`, an `io::Error`
@@ -10,7 +11,10 @@ is `Except.error ()`.
   panic exactly when Rust does.
 * `loadText` = `try_load_text` : `BufRead::lines`, `split_ascii_whitespace`, `str::parse`.
 * `recBinOrig` is the record decoder of the *unrepaired* snapshot (before the `fix:` commits for
-  F14/F15/F39), kept to state the refutation witnesses.
+  F14/F15/F39), kept to state the refutation witnesses (its syllable conversion is the current one).
+* A syllable field goes through `Syllable::try_from(u16)` (`syl_u16.try_into().or(Err(invalid_data()))?`):
+  since the repair of C13's F47 that is `Chewing.validCode` — zero AND every value outside the ranges of
+  the four component fields make the whole load fail with `InvalidData` (before: zero only).
 -/
 namespace Chewing.Uhash
 
@@ -87,18 +91,19 @@ def charCount (bs : List Nat) : Nat := (bs.filter (fun b => !isCont b)).length
 /-- result of decoding one 125-byte record -/
 inductive RecRes where
   | skip                 -- `continue`
-  | fail                 -- `return Err(invalid_data())` (a zero syllable)
+  | fail                 -- `return Err(invalid_data())` (a value `Syllable::try_from` rejects)
   | item (r : Rec)
 deriving Repr, DecidableEq, BEq
 
-/-- the `for _ in 0..len` loop: syllables at `base, base+2, …`; `none` = a zero syllable -/
+/-- the `for _ in 0..len` loop: syllables at `base, base+2, …`; `none` = a value that is not a syllable
+    (`Syllable::try_from` fails: zero or out of range) -/
 def readSyls (buf : List Nat) : Nat → Nat → Outcome (Option (List Nat))
   | 0, _ => .ok (some [])
   | n + 1, base =>
     match slice buf base (base + 2) with
     | .ok bs =>
       let v := leVal bs
-      if v == 0 then .ok none
+      if !validCode v then .ok none
       else
         match readSyls buf n (base + 2) with
         | .ok (some rest) => .ok (some (v :: rest))
@@ -227,7 +232,7 @@ def u16Max : Nat := 65535
 def u32Max : Nat := 4294967295
 def u64Max : Nat := 18446744073709551615
 
-/-- `n_chars` syllable columns, each a non-zero `u16` -/
+/-- `n_chars` syllable columns, each a `u16` that `Syllable::try_from` accepts -/
 def textSyls : Nat → List (List Nat) → Option (List Nat × List (List Nat))
   | 0, cols => some ([], cols)
   | n + 1, cols =>
@@ -237,7 +242,7 @@ def textSyls : Nat → List (List Nat) → Option (List Nat × List (List Nat))
       match parseUnsigned u16Max c with
       | none => none
       | some v =>
-        if v == 0 then none
+        if !validCode v then none
         else
           match textSyls n rest with
           | none => none
